@@ -49,8 +49,8 @@ def run_cli(spec, tier, seed):
                 drop = rng.sample(keys, min(len(keys), rng.randint(1, 4)))
                 variants.append(('missing', {q: v for q, v in ans.items() if q not in drop}))
                 gates = [q for q in keys if ans[q] == 'no']
-                if gates:
-                    g = rng.choice(gates)
+                picks = rng.sample(gates, min(3, len(gates))) + [q for q in ('1040.digital_assets', '1040.virtual_currency') if q in ans]
+                for g in picks:       # the last ones drive a line nothing else reads (an unimplemented leaf)
                     variants.append(('flip', dict(ans, **{g: 'yes'})))
             for name, amap in variants:
                 path = os.path.join(tmp, 'in.ini')
